@@ -288,6 +288,126 @@ func (g *gen) misc() {
 }
 
 // ---------------------------------------------------------------------------------------------
+// 2b. release order: the write of the new checkpoint to the lock backend fails WITHOUT being applied (or with being
+// applied, or the compare-and-swap is lost to a second instance / a concurrent request) exactly at the Replace of an
+// otherwise valid request, and then a DIFFERENT tree (a fork: same size, or larger) is submitted against the size that is
+// still on record. Nothing cosigned for the first tree may be readable anywhere (mon_public, mon_oneview).
+// Histories: A, B (fork after g.P leaves) and C (fork of A after 9 leaves), so that the fork is also reachable from a
+// recorded tree beyond the common prefix of A and B.
+// ---------------------------------------------------------------------------------------------
+func (g *gen) release(rounds int) {
+	C := &tree{}
+	const PC = 9
+	for i := 0; i < 64; i++ {
+		if i < PC {
+			C.leaves = append(C.leaves, g.A.leaves[i])
+			hs, err := tlog.StoredHashesForRecordHash(int64(i), g.A.leaves[i], C)
+			must(err)
+			C.stored = append(C.stored, hs...)
+			continue
+		}
+		d := make([]byte, 1+g.r.Intn(30))
+		g.r.Read(d)
+		C.add(d)
+	}
+	w := newWorld(g.kr, false, g.tmp, []*tree{g.A, g.B, C})
+	w.restart(1)
+	seq := 0
+	// a fresh origin known to both instances, brought to size base on history A
+	fresh := func(base int64) string {
+		seq++
+		o := fmt.Sprintf("r.example/%d", seq)
+		w.addLog(1, o, kLogA, fOK, fOK, fOK, fOK)
+		w.restart(2)
+		if base > 0 {
+			w.addSeq(1, g.req(0, nil, g.ckpt(o, g.A, base, good(kLogA))), fOK, fOK, fOK, false)
+		}
+		return o
+	}
+	adv := func(o string, from, to int64, t *tree) addReq {
+		return g.req(from, t.proveTree(to, from), g.ckpt(o, t, to, good(kLogA)))
+	}
+	// the parked request performs its backend calls: the Replace with fault fr, the Upload with fault fu
+	finish := func(i int, o string, fr, fu fault) {
+		for k := 0; k < 3; k++ {
+			switch w.parkedAt(i, o) {
+			case "replace":
+				w.stepHeld(i, o, fr)
+			case "upload":
+				w.stepHeld(i, o, fu)
+			}
+		}
+	}
+	type cse struct {
+		base, n, m int64 // recorded size; size of the request whose Replace goes wrong; size of the fork submitted after it
+		fork       *tree
+	}
+	cases := []cse{{0, 6, 6, g.B}, {0, 12, 12, g.B}, {3, 12, 12, g.B}, {5, 6, 6, g.B}, {9, 12, 12, C}, {9, 10, 14, C}, {0, 12, 9, g.B}, {4, 20, 33, g.B}}
+	for k := 0; k < rounds; k++ {
+		c := cse{base: int64(g.r.Intn(10))}
+		c.fork = g.B
+		if c.base > g.P {
+			c.fork = C
+		}
+		lo := c.base
+		if lo < g.P {
+			lo = g.P
+		}
+		if c.base > g.P {
+			lo = PC
+		}
+		c.n = lo + 1 + int64(g.r.Intn(20))
+		c.m = c.n
+		if g.r.Intn(3) == 0 {
+			c.m = lo + 1 + int64(g.r.Intn(20))
+		}
+		cases = append(cases, c)
+	}
+	for k, c := range cases {
+		first, fork := func(o string) addReq { return adv(o, c.base, c.n, g.A) }, func(o string) addReq { return adv(o, c.base, c.m, c.fork) }
+		i, j := 1+k%2, 2-k%2
+		// (a) Replace fails, not applied; the fork is then the legitimate next checkpoint
+		o := fresh(c.base)
+		w.addSeq(i, first(o), fOK, fFail, fOK, false)
+		w.addSeq(i, fork(o), fOK, fOK, fOK, false)
+		w.addSeq(i, first(o), fOK, fOK, fOK, false)
+		// (b) the same with a restart, and the fork submitted to the other instance
+		o = fresh(c.base)
+		w.addSeq(i, first(o), fOK, fFail, fOK, false)
+		w.restart(i)
+		w.addSeq(j, fork(o), fOK, fOK, fOK, false)
+		// (c) Replace fails but WAS applied: the first tree is on record, the fork must be refused
+		o = fresh(c.base)
+		w.addSeq(i, first(o), fOK, fFailApplied, fOK, false)
+		w.addSeq(i, fork(o), fOK, fOK, fOK, false)
+		w.addSeq(j, adv(o, c.n, c.n, g.A), fOK, fOK, fOK, false)
+		// (d) the compare-and-swap is lost: instance i is parked before its first backend call while instance j gets the
+		// fork recorded and cosigned; then i goes on (no injected fault at all)
+		o = fresh(c.base)
+		w.addHold(i, o, first(o), fOK)
+		w.addSeq(j, fork(o), fOK, fOK, fOK, false)
+		finish(i, o, fOK, fOK)
+		// (e) parked, its Replace then fails unapplied (Upload would succeed), the fork follows on the other instance
+		o = fresh(c.base)
+		w.addHold(i, o, first(o), fOK)
+		finish(i, o, fFail, fOK)
+		w.addSeq(j, fork(o), fOK, fOK, fOK, false)
+		// (f) both submitted concurrently to one instance, the Replace of the first failing (unapplied / applied)
+		// (both start orders: the goroutine started last usually enters the critical section first)
+		for fi, f := range []fault{fFail, fFail, fFailApplied} {
+			o = fresh(c.base)
+			items := []batchItem{{first(o), f, fOK}, {fork(o), fOK, fOK}}
+			if fi == 0 {
+				items[0], items[1] = items[1], items[0]
+			}
+			w.addBatch(i, items)
+			w.addSeq(j, fork(o), fOK, fOK, fOK, false)
+		}
+	}
+	w.monConsistent()
+}
+
+// ---------------------------------------------------------------------------------------------
 // 3. random sessions on one origin: two instances, faults, restarts, forks, holds, batches
 // ---------------------------------------------------------------------------------------------
 
@@ -343,6 +463,22 @@ func (g *gen) session(k int, ops int) {
 		}
 		adv := func(from, to int64, t *tree) addReq { return g.req(from, t.proveTree(to, from), g.ckpt(o, t, to, good(kLogA))) }
 		switch c := g.r.Intn(100); {
+		case c < 6 && cur <= g.P && next > g.P:
+			// the Replace of an advance goes wrong (unapplied / applied / lost to the other instance); then the other
+			// history's tree of the SAME size is submitted against the size still on record
+			j := 3 - i
+			switch g.r.Intn(3) {
+			case 0:
+				w.addSeq(i, adv(cur, next, tr), fOK, fFail, fOK, false)
+			case 1:
+				w.addSeq(i, adv(cur, next, tr), fOK, fFailApplied, fOK, false)
+			default:
+				w.addHold(i, o, adv(cur, next, tr), fOK)
+				w.addSeq(j, adv(cur, next, other), fOK, fOK, fOK, false)
+				w.stepHeld(i, o, fOK)
+				w.stepHeld(i, o, fOK)
+			}
+			w.addSeq([]int{i, j}[g.r.Intn(2)], adv(cur, next, other), fOK, fOK, fOK, false)
 		case c < 34:
 			ff := fOK
 			if g.r.Intn(100) < 8 {
